@@ -725,6 +725,49 @@ func (w *argWalker) stmt(st ast.Stmt, lo int) int {
 			return max(lo, after)
 		}
 		w.exprs(x.Tag, lo)
+		if off, isLen := w.lenOffset(x.Tag); isLen {
+			// switch len(args) { case 3, 4: … default: … }: in a clause the length is one of its constants
+			after := -1
+			join := func(b int) {
+				if after < 0 || b < after {
+					after = b
+				}
+			}
+			hasDefault := false
+			for _, cs := range x.Body.List {
+				cc := cs.(*ast.CaseClause)
+				t := lo
+				if cc.List == nil {
+					hasDefault = true
+				} else {
+					least, known := -1, true
+					for _, e := range cc.List {
+						k, ok := constInt(w.info, e)
+						if !ok {
+							known = false
+							break
+						}
+						if v := int(k) + off; least < 0 || v < least {
+							least = v
+						}
+					}
+					if known && least > t {
+						t = least
+					}
+				}
+				end := w.block(cc.Body, t)
+				if !terminates(cc.Body) {
+					join(end)
+				}
+			}
+			if !hasDefault {
+				join(lo)
+			}
+			if after < 0 {
+				after = lo
+			}
+			return max(lo, after)
+		}
 		for _, cc := range x.Body.List {
 			w.block(cc.(*ast.CaseClause).Body, lo)
 		}
